@@ -67,7 +67,7 @@ CLAIMS = {
         "technique": _K + "all entry values for fixed clock lengths",
     },
     "C16": {
-        "text": 'Solver verdict over all inputs within the bounds: the varint kernels round-trip for every u64 with exact values and the decoder is total on every byte string <= 11 bytes; the schedule parser returns (never panics) on every byte vector of length <= 2 (quick) / 3 (thorough) that hex decoding can produce, rejects what the hex layer rejects, and accepts a header with no step data exactly when its task-id width (a varint of 1, 2, 5 / 9, 10 bytes, all payload bits symbolic) is 1..=64 and the announced length is 0. The genuine decoder panics found on the pinned tree were repaired (fix: 7283ba1) and the harnesses that expose them stay in the check.',
+        "text": 'Solver verdict over all inputs within the bounds: the varint kernels round-trip for every u64 with exact values and the decoder is total on every byte string <= 11 bytes; the schedule parser returns (never panics) on every byte vector of length <= 2 (quick) / 3 (thorough) that hex decoding can produce, rejects what the hex layer rejects, and accepts a header with no step data exactly when its task-id width (a varint of 1, 2, 5 / 9, 10 bytes, all payload bits symbolic) is 1..=64 and the announced length is 0; the encoder, up to the entry of step packing, allocates a bit vector that holds every step at the id width the largest task id needs (at least 1 bit) for every schedule of 1 / 3 steps with any usize ids. The genuine decoder panics found on the pinned tree were repaired (fix: 7283ba1) and the harnesses that expose them stay in the check.',
         "note": 'Kani/CBMC model of the dev profile; `hex` crate and string front-end replaced by an environment stub returning arbitrary bytes; whole-schedule round trip with symbolic contents (bitvec step packing) and fully symbolic byte vectors > 3 bytes are outside the bound (measured out of memory), as are symbolic strings.',
         "technique": _K + 'all u64 / all byte strings up to the bound / all width varints of fixed byte length',
     },
